@@ -422,6 +422,61 @@ func c14Zoo(c *Ctx, r *Rand, rounds int) {
 	}
 }
 
+// c14SharedFragmentArgs: two object types with a field of the same name whose arguments differ in type; a named
+// fragment that selects the field with arguments is spread under both (thunder applies a fragment under an object
+// parent whatever its type condition). Whatever validation accepts must execute without a type error.
+type zooPA struct{ N int64 }
+type zooPB struct{ N int64 }
+
+func c14SharedFragmentArgs(c *Ctx) {
+	rep := c.Rep
+	sb := schemabuilder.NewSchema()
+	a := sb.Object("zooPA", zooPA{})
+	a.FieldFunc("f", func(x *zooPA, args struct{ X int64 }) int64 { return args.X + 100 })
+	a.FieldFunc("g", func(x *zooPA, args struct{ X int64 }) int64 { return args.X + 200 })
+	b := sb.Object("zooPB", zooPB{})
+	b.FieldFunc("f", func(x *zooPB, args struct{ X string }) string { return "b:" + args.X })
+	b.FieldFunc("g", func(x *zooPB, args struct{ X int64 }) int64 { return args.X + 300 })
+	q := sb.Query()
+	q.FieldFunc("a", func() *zooPA { return &zooPA{} })
+	q.FieldFunc("b", func() *zooPB { return &zooPB{} })
+	sb.Mutation()
+	schema := sb.MustBuild()
+	failing := false
+	detail := ""
+	for _, query := range []string{
+		`{ a { ...F } b { ...F } } fragment F on zooPA { f(x: 1) }`,
+		`{ b { ...F } a { ...F } } fragment F on zooPA { f(x: 1) }`,
+		`{ a { ...F } b { ...F } } fragment F on zooPB { f(x: "s") }`,
+		`{ a { ...F } b { ...F } } fragment F on zooPA { g(x: 1) }`,
+		`{ a { ...F } } fragment F on zooPA { f(x: 1) }`,
+	} {
+		cs := map[string]interface{}{"shared_fragment_args": query}
+		pq, err := graphql.Parse(query, map[string]interface{}{})
+		if err != nil {
+			rep.Fail("harness_error", nil, cs, map[string]interface{}{"error": err.Error()})
+			return
+		}
+		var execErr error
+		accepted := false
+		p := safely(func() {
+			if execErr = graphql.PrepareQuery(context.Background(), schema.Query, pq.SelectionSet); execErr != nil {
+				return
+			}
+			accepted = true
+			_, execErr = graphql.NewExecutor(graphql.NewImmediateGoroutineScheduler()).Execute(context.Background(), schema.Query, nil, pq)
+		})
+		if accepted && (p != nil || execErr != nil) {
+			failing = true
+			detail = fmt.Sprintf("%s: accepted by validation, then %v %v", query, p, firstN(fmt.Sprint(execErr), 160))
+			rep.Fail("impl_ne_spec", []string{"c14_shared_fragment_args"}, cs, map[string]interface{}{"what": "a query validation accepted fails at execution for a type reason: a fragment's field arguments were parsed for the first object type only", "detail": detail})
+			break
+		}
+		rep.Count("shared_fragment_args")
+	}
+	rep.Repros["C14-6"] = Repro{Fails: failing, Detail: detail}
+}
+
 // zooBuilderFor: the schemabuilder.Schema (not the built graphql.Schema) is what ComputeSchemaJSON takes
 func zooBuilderFor(items []*zooItem) *schemabuilder.Schema {
 	sb := schemabuilder.NewSchema()
